@@ -143,6 +143,32 @@ mut("c15-append-outcome-read-after-unlock", "C15", "src/replication/shared_core.
     "            let mut core = self.0.lock().await;\n            Ok(core.append(data).await?)",
     "            {\n                let mut core = self.0.lock().await;\n                core.append(data).await?;\n            }\n            let i = self.0.lock().await.info();\n            Ok(AppendOutcome { length: i.length, byte_length: i.byte_length })")
 
+# ---------------------------------------------------------------- second round (replacements for mutants that turned out equivalent / invalid)
+mut("r2-c08-contiguous-no-forward-scan", "C08", "src/core.rs",
+    "        c = end;\n        while bitfield.get(c) {\n            c += 1;\n        }",
+    "        c = end;\n        let _ = bitfield;", also=["C01", "C03"])
+mut("r2-c15-info-under-two-lock-acquisitions", "C15", "src/replication/shared_core.rs",
+    "            let core = &self.0.lock().await;\n            core.info()\n        }",
+    "            let a = { self.0.lock().await.info() };\n            let b = { self.0.lock().await.info() };\n            Info { length: a.length, byte_length: b.byte_length, contiguous_length: a.contiguous_length, fork: a.fork, writeable: a.writeable }\n        }")
+mut("r2-c10-unwrap-on-length-query", "C10", "src/storage/mod.rs",
+    "                        None => storage.len().await.map_err(map_random_access_err)?,",
+    "                        None => storage.len().await.unwrap(),")
+mut("r2-c06-node-size-after-hash", "C06", "src/tree/merkle_tree.rs", None, None, also=["C05"])
+mut("r2-c06-partial-and-header-bits-swapped", "C06", "src/oplog/mod.rs", None, None, also=["C02"])
+mut("r2-c07-short-buffer-check-removed", "C07", "src/oplog/mod.rs",
+    "        if buffer.len() < 8 {\n            return Ok(None);\n        }\n        let ((stored_checksum, combined), data_buff) =",
+    "        let ((stored_checksum, combined), data_buff) =", also=["C02"])
+mut("r2-c02-clear-logs-after-deleting-data", "C02", "src/core.rs", None, None, also=["C10"])
+mut("r2-c01-bitfield-skips-empty-tail-block", "C01", "src/core.rs",
+    "                length: changeset.batch_length,\n            };\n            let outcome = self.oplog.append_changeset(",
+    "                length: changeset.batch_length - if batch.as_ref().last().map(|d| d.as_ref().is_empty()).unwrap_or(false) && changeset.batch_length > 1 { 1 } else { 0 },\n            };\n            let outcome = self.oplog.append_changeset(", also=["C13", "C08"])
+mut("r2-c13-upgrade-event-on-every-accepted-proof", "C13", "src/core.rs",
+    "            if proof.upgrade.is_some() {\n                // Notify replicator if we receieved an upgrade",
+    "            if proof.upgrade.is_some() || proof.block.is_some() {\n                // Notify replicator if we receieved an upgrade")
+mut("r2-c04-verify-accepts-on-signature-error-for-short-upgrades", "C04", "src/tree/merkle_tree_changeset.rs",
+    "        verify(public_key, &self.signable(&hash), Some(&signature))?;",
+    "        let r = verify(public_key, &self.signable(&hash), Some(&signature));\n        if self.length > 2 {\n            r?;\n        }")
+
 def special(name, src):
     if name == "c06-entry-flag-bits-permuted-consistently":
         # tree-upgrade bit 4 <-> bitfield bit 8, in encode and decode
@@ -165,6 +191,32 @@ def special(name, src):
         b = "            #[cfg(feature = \"replication\")]\n            {\n                let _ = self.events.send(crate::replication::events::DataUpgrade {});\n                let _ = self\n                    .events\n                    .send(crate::replication::events::Have::from(&bitfield_update));\n            }\n\n            // Now ready to flush\n            if self.should_flush_bitfield_and_tree_and_oplog() {\n                self.flush_bitfield_and_tree_and_oplog(false).await?;\n            }"
         assert a in src
         return src.replace(a, b)
+    if name == "r2-c06-node-size-after-hash":
+        a = "                Ok::<Box<[u8]>, EncodingError>(to_encoded_bytes!(\n                    node.length.as_fixed_width(),\n                    hash\n                ))"
+        b = "                Ok::<Box<[u8]>, EncodingError>(to_encoded_bytes!(\n                    hash,\n                    node.length.as_fixed_width()\n                ))"
+        assert a in src
+        src = src.replace(a, b)
+        a = "    let len_buf = &data[..8];\n    let hash = &data[8..];"
+        b = "    let len_buf = &data[32..];\n    let hash = &data[..32];"
+        assert a in src
+        return src.replace(a, b)
+    if name == "r2-c06-partial-and-header-bits-swapped":
+        a = "        let header_bit = combined & 1 == 1;\n        let partial_bit = combined & 2 == 2;"
+        b = "        let header_bit = combined & 2 == 2;\n        let partial_bit = combined & 1 == 1;"
+        assert a in src
+        src = src.replace(a, b)
+        a = "    let partial_bit: u32 = if partial_bit { 2 } else { 0 };\n    let header_bit: u32 = if header_bit { 1 } else { 0 };"
+        b = "    let partial_bit: u32 = if partial_bit { 1 } else { 0 };\n    let header_bit: u32 = if header_bit { 2 } else { 0 };"
+        assert a in src
+        return src.replace(a, b)
+    if name == "r2-c02-clear-logs-after-deleting-data":
+        a = "        // Write to oplog\n        let infos_to_flush = self.oplog.clear(start, end)?;\n        self.storage.flush_infos(&infos_to_flush).await?;\n\n        // Set bitfield"
+        assert a in src
+        src = src.replace(a, "        // Set bitfield")
+        a = "        // Clear blocks\n        let info_to_flush = self.block_store.clear(clear_offset, clear_length);\n        self.storage.flush_info(info_to_flush).await?;"
+        assert a in src
+        # the requested range is logged only after the bytes are gone
+        return src.replace(a, a + "\n\n        // Write to oplog\n        let infos_to_flush = self.oplog.clear(logged_start, logged_end)?;\n        self.storage.flush_infos(&infos_to_flush).await?;").replace("        // Set bitfield\n        self.bitfield.set_range(start, end - start, false);", "        let (logged_start, logged_end) = (start, end);\n        // Set bitfield\n        self.bitfield.set_range(start, end - start, false);")
     raise SystemExit("no special for " + name)
 
 def sh(cmd, cwd, timeout):
